@@ -2,7 +2,7 @@
 from .. import core, scope, gen, drive
 from .common import *
 
-FMTS = ("list", "array", "narrowarray", "dict", "valueof")
+FMTS = ("list", "array", "narrowarray", "dict", "valueof", "falsydict", "emptystr")
 
 
 def part_calls(g, rng, q):
@@ -69,8 +69,8 @@ def run(ck):
         g = dict(g); g["orc"] = 0
         g["calls"] = [pcall(a, f, extra=False) for a in COVERS for f in FMTS]
         groups.append(g)
-    ck.rule = ("every algorithm is called on every input of a TLC-enumerated universe (bags n<=5, v<=4, k<=4; sequences for packing/covering) in four presentations: "
-               "plain list, numpy array, dict with string names, list of integer names + value function (names unrelated to values); TLC compares the bags of sums "
+    ck.rule = ("every algorithm is called on every input of a TLC-enumerated universe (bags n<=5, v<=4, k<=4; sequences for packing/covering) in seven presentations: "
+               "plain list, numpy array, narrow-dtype numpy array, dict with string names, list of integer names + value function (names unrelated to values), dicts whose largest item is named 0 / the empty string (falsy names); TLC compares the bags of sums "
                "and checks the named results over the names; plus seeded families. non-trivial = distinct input with >=2 items")
     run_pack_groups(ck, groups, {"C07"}, "C07 packers / covers across presentations", chunk=6000)
     ck.assumptions += ["TLC / SANY / CommunityModules", "the harness's name<->id bijection (DESIGN 4.3)"]
